@@ -13,34 +13,34 @@
                queries of one iteration as a multiset.  The same chk_C17, extracted, is the
                monitor on the traces of the real daemon.
    late h    = in some iteration a search reaches its deadline while its next query is still
-               pending (the daemon was not run between the query time and the deadline).  *)
+               pending (the daemon was not run between the query time and the deadline); since
+               the repair a4675d4 no theorem needs it as a hypothesis any more.  *)
 From Coq Require Import List NArith Bool.
 From Mdns Require Import Bytes ParamsHostres HostresBase HostresModel HostresSpec
                          HostresRefine HostresSchedProofs HostresCacheProofs HostresFoundProofs HostresCaseProofs.
 Import ListNotations.
 Open Scope N_scope.
 
-(* ---- the code satisfies the property's checker, on every history that is never late ---- *)
+(* ---- the code satisfies the property's checker, on every well-formed history ---- *)
+(* (times do not go backwards, every resolve call has its own channel; iteration times are
+   otherwise arbitrary: early, exact or late wake-ups) *)
 Theorem C17_model_satisfies_checker : forall h,
-  wf_hist h = true -> late h = false -> chk_C17 h (run h) = true.
+  wf_hist h = true -> chk_C17 h (run h) = true.
 Proof. exact model_refines_spec. Qed.
 
-(* FULL STATEMENT (false of the code as it is):
-     forall h, wf_hist h = true -> chk_C17 h (run h) = true.
-   Refuted by a wake-up one millisecond late at the deadline: after SearchTimeout and
-   SearchStopped the code delivers SearchStarted again, asks A+AAAA at the deadline and keeps a
-   retransmission queued for a search that is over (finding C17-late-wake-requery-after-timeout). *)
-Theorem C17_timeout_late_wakeup_refuted :
-  exists h, wf_hist h = true /\ late h = true /\ chk_C17 h (run h) = false.
-Proof. exact (ex_intro _ late_witness late_refuted). Qed.
+(* formerly refuted (finding C17-late-wake-requery-after-timeout, repaired by a4675d4): a
+   wake-up one millisecond late at the deadline, with the retransmission still queued.  Now:
+   SearchTimeout, SearchStopped, the channel closes, no further question, nothing left queued *)
+Theorem C17_timeout_late_wakeup :
+  wf_hist late_witness = true /\ late late_witness = true /\ chk_C17 late_witness (run late_witness) = true.
+Proof. exact late_now_ok. Qed.
 
 Theorem C17_late_wakeup_behaviour :
   map (fun o => (o_events o, o_queries o)) (run late_witness)
   = [ ([(1, EStarted name_a_local)], [host_query name_a_local]);
-      ([(1, ETimeout name_a_local); (1, EStopped name_a_local); (1, EStarted name_a_local)],
-       [host_query name_a_local]) ]
+      ([(1, ETimeout name_a_local); (1, EStopped name_a_local); (1, EClosed)], []) ]
   /\ s_res (state_after st0 late_witness) = []
-  /\ map rr_time (s_retr (state_after st0 late_witness)) = [1003001].
+  /\ s_retr (state_after st0 late_witness) = [].
 Proof. exact late_behaviour. Qed.
 
 (* ---- query_schedule ---- *)
@@ -227,7 +227,7 @@ Example C17_case_example :
 Proof. exact toggle_example. Qed.
 
 Print Assumptions C17_model_satisfies_checker.
-Print Assumptions C17_timeout_late_wakeup_refuted.
+Print Assumptions C17_timeout_late_wakeup.
 Print Assumptions C17_late_wakeup_behaviour.
 Print Assumptions C17_query_schedule.
 Print Assumptions C17_schedule_gaps.
